@@ -539,6 +539,15 @@ func (st *tunnelServerStream) readMsgLocked() (data []byte, ok bool, err error) 
 			if halfClosedErr := st.halfClosed.Load(); halfClosedErr != nil {
 				err = halfClosedErr.error
 			}
+			if err == nil {
+				// The receiver was cancelled because the stream's context
+				// ended before any half-close was recorded. Report that
+				// instead of returning a nil error (which the caller would
+				// take for an empty message).
+				if err = st.ctx.Err(); err == nil {
+					err = context.Canceled
+				}
+			}
 			return nil, true, err
 		}
 
